@@ -758,3 +758,503 @@ func c06RejectWins(c *Check, rule string) {
 	path, f := r.F.Reach(Query{From: waits, Target: succ, AvoidEdge: known, NoCorr: true})
 	c.Hold(rule, "runAndMergeResults:reject-wins", r.FI.Decl.Pos(), !f, "after the checks have finished the function can return success without having tested that no reject was recorded ("+rejField.Name()+"): when one check quarantines and another refuses, the refusal is dropped – the message is accepted and delivered: "+r.F.Describe(path))
 }
+
+// c09AcceptedListAfterAccept: a target that talks to one server keeps the list of recipients the server accepted and
+// later maps the server's per-recipient answers onto it by position (LMTP) or reports one outcome for all of them.
+// A recipient enters the list only after the server said yes: no failure exit of AddRcpt is reachable from the append.
+func c09AcceptedListAfterAccept(c *Check, rule string) {
+	c.Rule(rule, "targets: a recipient is appended to the delivery's list of accepted recipients only once the next hop has accepted it – no failing return of AddRcpt is reachable from the append (a refused recipient left in the list shifts every later per-recipient LMTP answer onto the wrong address)", 2)
+	p := c.P
+	n := 0
+	for _, rel := range []string{"internal/target/smtp", remoteRel} {
+		for _, fi := range funcsOfPkgs(p, rel) {
+			if fi.Decl.Body == nil || fi.Decl.Recv == nil || refName(fi.Obj) != "AddRcpt" {
+				continue
+			}
+			r := &RuleCtx{C: c, FI: fi, F: p.FlowOfFunc(fi), Info: fi.Info()}
+			info := r.Info
+			for _, pt := range r.F.Points() {
+				as, ok := pt.Node().(*ast.AssignStmt)
+				if !ok || len(as.Lhs) != 1 || len(as.Rhs) != 1 {
+					continue
+				}
+				fv := fieldOf(info, as.Lhs[0])
+				if fv == nil {
+					continue
+				}
+				call, ok := ast.Unparen(as.Rhs[0]).(*ast.CallExpr)
+				if !ok {
+					continue
+				}
+				if id, isID := call.Fun.(*ast.Ident); !isID || id.Name != "append" || len(call.Args) < 2 || fieldOf(info, call.Args[0]) != fv {
+					continue
+				}
+				if sl, isSl := fv.Type().Underlying().(*types.Slice); !isSl || !isStringType(sl.Elem()) {
+					continue
+				}
+				n++
+				c.SawFunc(fi.Name())
+				fail := func(q Pt) bool { return r.F.IsExitPt(q) && !r.IsSuccessReturn(q) }
+				path, f := r.F.Reach(Query{From: []Pt{pt}, Target: fail})
+				c.Hold(rule, fi.Pkg.Types.Name()+"."+recvTypeName(fi.Decl)+".AddRcpt:"+fv.Name(), as.Pos(), !f, "the recipient is put on the list of accepted recipients ("+fv.Name()+") and AddRcpt can still fail afterwards: a recipient the server refused stays in the list – with an LMTP next hop every later per-recipient answer is attributed to the address before it (a failure is reported for the wrong recipient, the real one is taken as delivered and never reported): "+r.F.Describe(path))
+			}
+		}
+	}
+	if n == 0 {
+		c.Fail(rule, "targets:accepted-lists", token.NoPos, "undecided: no AddRcpt of the SMTP/LMTP or remote target appends to a list of accepted recipients")
+	}
+}
+
+// c18NoByteCut: the text of the last error goes into the report's text/plain part (charset=utf-8) and into
+// Diagnostic-Code. It may be multi-line and non-ASCII. Cutting it at a byte index can split a multi-byte character:
+// the report of an SMTPUTF8 message is then not valid UTF-8. A cut is acceptable only where the function takes care of
+// character boundaries (unicode/utf8, strings.ToValidUTF8, a loop over the runes).
+func c18NoByteCut(c *Check, rule string) {
+	c.Rule(rule, "queue and report writer: the stored error text (the Message of an SMTP error) is never cut at a byte index – a slice expression on it appears only in a function that handles character boundaries (unicode/utf8, strings.ToValidUTF8): a multi-byte character split in two would make the report's UTF-8 parts ill-formed", 0)
+	p := c.P
+	n := 0
+	for _, fi := range funcsOfPkgs(p, queueRel, "internal/dsn") {
+		if fi.Decl.Body == nil {
+			continue
+		}
+		info := fi.Info()
+		careful := false
+		ast.Inspect(fi.Decl.Body, func(x ast.Node) bool {
+			if call, ok := x.(*ast.CallExpr); ok {
+				if fn := callee(info, call); fn != nil && fn.Pkg() != nil && (fn.Pkg().Path() == "unicode/utf8" || (fn.Pkg().Path() == "strings" && fn.Name() == "ToValidUTF8")) {
+					careful = true
+				}
+			}
+			return true
+		})
+		isMsg := func(e ast.Expr) bool {
+			if fv := fieldOf(info, e); fv != nil && fv.Name() == "Message" {
+				return true
+			}
+			// a local that was assigned from such a field
+			if o := objOf(info, e); o != nil {
+				for _, d := range defsOfExpr(info, fi.Decl.Body, e)[1:] {
+					if de, ok := d.(ast.Expr); ok {
+						if fv := fieldOf(info, de); fv != nil && fv.Name() == "Message" {
+							return true
+						}
+					}
+				}
+			}
+			return false
+		}
+		ast.Inspect(fi.Decl.Body, func(x ast.Node) bool {
+			se, ok := x.(*ast.SliceExpr)
+			if !ok || (se.High == nil && se.Low == nil) {
+				return true
+			}
+			if t := info.TypeOf(se.X); t == nil || !isStringType(t) {
+				return true
+			}
+			if !isMsg(se.X) {
+				return true
+			}
+			n++
+			c.SawFunc(fi.Name())
+			c.Hold(rule, fi.Pkg.Types.Name()+"."+refName(fi.Obj)+":cut"+itoa(n), se.Pos(), careful, "the error text is cut at a byte index ("+exprStr(se)+") in a function that does not look at character boundaries: a long non-ASCII reply (a 1700-byte Cyrillic 550) is cut inside a multi-byte character, the dangling byte reaches the text/plain; charset=utf-8 part and Diagnostic-Code – the report for an SMTPUTF8 message is not valid UTF-8")
+			return true
+		})
+	}
+	if n == 0 {
+		c.HoldConst(rule, "no-cut-of-error-text", token.NoPos, true, "")
+	}
+}
+
+// c16ForcedClassHasNoStatus: exterrors.WithTemporary(err, true) overrides what Temporary() says and leaves the status
+// fields underneath as they are. Applied to an error that carries the next hop's own reply (anything an smtpconn
+// operation returned) it produces "temporary" with `554 5.x.x` inside: the queue retries until max_tries and the report
+// then shows a permanent status. The class is forced only on errors that have no SMTP status of their own.
+func c16ForcedClassHasNoStatus(c *Check, rule string) {
+	c.Rule(rule, "exterrors.WithTemporary(err, true) is never applied to an error that stems from an smtpconn operation (it carries the next hop's reply code: forcing the class would give a temporary error with a 5yz status inside)", 1)
+	p := c.P
+	n := 0
+	ordF := map[string]int{}
+	rels := append([]string{}, propertyPackages["C16"]...)
+	rels = append(rels, "internal/target/smtp", "internal/check/dkim", "internal/check/spf", "internal/auth/dovecot_sasl")
+	seenRel := map[string]bool{}
+	for _, rel := range rels {
+		if seenRel[rel] {
+			continue
+		}
+		seenRel[rel] = true
+		for _, fi := range funcsOfPkgs(p, rel) {
+			if fi.Decl.Body == nil {
+				continue
+			}
+			info := fi.Info()
+			ast.Inspect(fi.Decl.Body, func(x ast.Node) bool {
+				call, ok := x.(*ast.CallExpr)
+				if !ok || !isCall(info, call, "~/framework/exterrors.WithTemporary") || len(call.Args) != 2 {
+					return true
+				}
+				if tv, ok := info.Types[call.Args[1]]; !ok || tv.Value == nil || tv.Value.String() != "true" {
+					return true
+				}
+				n++
+				ordF[fi.Name()]++
+				c.SawFunc(fi.Name())
+				// where can the wrapped error come from?
+				seen := map[ast.Node]bool{}
+				hit := ""
+				var walk func(e ast.Expr, depth int)
+				walk = func(e ast.Expr, depth int) {
+					e = ast.Unparen(e)
+					if seen[e] || depth > 8 || hit != "" {
+						return
+					}
+					seen[e] = true
+					switch v := e.(type) {
+					case *ast.CallExpr:
+						if fn := callee(info, v); fn != nil && fn.Pkg() != nil {
+							pp := fn.Pkg().Path()
+							if pp == modPath+"/internal/smtpconn" || strings.HasSuffix(pp, "emersion/go-smtp") {
+								hit = fn.Name()
+								return
+							}
+						}
+						for _, a := range v.Args {
+							if t := info.TypeOf(a); t != nil && isErrorType(t) {
+								walk(a, depth+1)
+							}
+						}
+					case *ast.Ident:
+						o := objOf(info, v)
+						if o == nil {
+							return
+						}
+						ast.Inspect(fi.Decl.Body, func(y ast.Node) bool {
+							as, ok := y.(*ast.AssignStmt)
+							if !ok {
+								return true
+							}
+							for i, l := range as.Lhs {
+								if objOf(info, l) != o {
+									continue
+								}
+								if len(as.Lhs) == len(as.Rhs) {
+									walk(as.Rhs[i], depth+1)
+								} else if len(as.Rhs) == 1 {
+									walk(as.Rhs[0], depth+1)
+								}
+							}
+							return true
+						})
+					}
+				}
+				walk(call.Args[0], 0)
+				c.Hold(rule, fi.Pkg.Types.Name()+"."+refName(fi.Obj)+":forced"+itoa(ordF[fi.Name()]), call.Pos(), hit == "", "the class of an error that stems from the next hop's own reply (smtpconn "+hit+") is forced to temporary: a server that refuses with 554 is reported as `554 5.x.x` and still retried until max_tries – basic code, enhanced code and the retry decision no longer agree")
+				return true
+			})
+		}
+	}
+	if n == 0 {
+		c.HoldConst(rule, "no-forced-class", token.NoPos, true, "")
+	}
+}
+
+// c10NoMetaStoreAfterBody: a target takes what it needs from the message metadata when it is handed the body (the
+// queue writes its spool record inside Body). A store into the metadata after the Body call is seen by whoever shares
+// the pointer in memory and by nobody who reads the record back: the first attempt and the attempt after a restart
+// get different metadata.
+func c10NoMetaStoreAfterBody(c *Check, rule string) {
+	c.Rule(rule, "endpoint: nothing is stored into the message metadata once the body has been handed to the delivery (the queue writes its record inside Body): the spooled record and the first attempt see the same envelope options (TLS-Required override, …)", 1)
+	p := c.P
+	n := 0
+	for _, fi := range funcsOfPkgs(p, smtpEndpRel) {
+		if fi.Decl.Body == nil || fi.Decl.Recv == nil || recvTypeName(fi.Decl) != "Session" {
+			continue
+		}
+		r := &RuleCtx{C: c, FI: fi, F: p.FlowOfFunc(fi), Info: fi.Info()}
+		bodies := r.Calls(func(info *types.Info, call *ast.CallExpr) bool {
+			m := methodName(call)
+			if m != "Body" && m != "BodyNonAtomic" {
+				return false
+			}
+			fn := callee(info, call)
+			return fn != nil && fn.Pkg() != nil && strings.HasSuffix(fn.Pkg().Path(), "/framework/module")
+		})
+		if len(bodies) == 0 {
+			continue
+		}
+		n++
+		c.SawFunc(fi.Name())
+		store := func(q Pt) bool {
+			as, ok := q.Node().(*ast.AssignStmt)
+			if !ok {
+				return false
+			}
+			for _, l := range as.Lhs {
+				if fv := fieldOf(r.Info, l); fv != nil {
+					if sel, ok := ast.Unparen(l).(*ast.SelectorExpr); ok {
+						if t := r.Info.TypeOf(sel.X); t != nil && typeIs(t, "~/framework/module", "MsgMetadata") {
+							return true
+						}
+					}
+				}
+			}
+			return false
+		}
+		path, f := r.F.Reach(Query{From: bodies, Target: store})
+		c.Hold(rule, "Session."+refName(fi.Obj)+":no-store-after-body", fi.Decl.Pos(), !f, "a field of the message metadata is stored after the body was handed to the delivery: the queue has written its record by then – the in-memory first attempt sees the new value, an attempt after a restart (which reads the record) does not: "+r.F.Describe(path))
+	}
+	if n == 0 {
+		c.Fail(rule, "Session:body-calls", token.NoPos, "undecided: no Session method hands a body to a delivery")
+	}
+}
+
+// c10NoPooledBuffer: the bytes of an accepted message live in the buffer the endpoint hands to the pipeline until the
+// queue has copied them into its spool. Storage that goes back to a sync.Pool when the reading function returns is
+// reused by the next session while the first message is still being checked: the slice placed into a MemoryBuffer
+// never aliases pooled storage.
+func c10NoPooledBuffer(c *Check, rule string) {
+	c.Rule(rule, "endpoint buffering: the slice placed into a buffer.MemoryBuffer never aliases storage obtained from a sync.Pool (it would be overwritten by the next session's message while this one is still on its way to the spool)", 0)
+	p := c.P
+	n := 0
+	for _, fi := range funcsOfPkgs(p, smtpEndpRel, "framework/buffer") {
+		if fi.Decl.Body == nil {
+			continue
+		}
+		info := fi.Info()
+		tainted := map[types.Object]bool{}
+		isPoolGet := func(e ast.Expr) bool {
+			found := false
+			ast.Inspect(e, func(y ast.Node) bool {
+				if call, ok := y.(*ast.CallExpr); ok && isCall(info, call, "sync.Pool.Get") {
+					found = true
+				}
+				return true
+			})
+			return found
+		}
+		var derives func(e ast.Expr) bool
+		derives = func(e ast.Expr) bool {
+			e = ast.Unparen(e)
+			switch v := e.(type) {
+			case *ast.Ident:
+				return tainted[objOf(info, v)]
+			case *ast.StarExpr:
+				return derives(v.X)
+			case *ast.SliceExpr:
+				return derives(v.X)
+			case *ast.TypeAssertExpr:
+				return derives(v.X) || isPoolGet(v.X)
+			case *ast.CallExpr:
+				if isCall(info, v, "sync.Pool.Get") {
+					return true
+				}
+				if tv, ok := info.Types[v.Fun]; ok && tv.IsType() && len(v.Args) == 1 {
+					return derives(v.Args[0])
+				}
+			}
+			return false
+		}
+		for changed := true; changed; {
+			changed = false
+			ast.Inspect(fi.Decl.Body, func(x ast.Node) bool {
+				if as, ok := x.(*ast.AssignStmt); ok && len(as.Lhs) == len(as.Rhs) {
+					for i, l := range as.Lhs {
+						if o := objOf(info, l); o != nil && !tainted[o] && derives(as.Rhs[i]) {
+							tainted[o] = true
+							changed = true
+						}
+					}
+				}
+				return true
+			})
+		}
+		if len(tainted) == 0 {
+			continue
+		}
+		ast.Inspect(fi.Decl.Body, func(x ast.Node) bool {
+			cl, ok := x.(*ast.CompositeLit)
+			if !ok || !typeIs(info.TypeOf(cl), "~/framework/buffer", "MemoryBuffer") {
+				return true
+			}
+			for _, el := range cl.Elts {
+				v := el
+				if kv, ok := el.(*ast.KeyValueExpr); ok {
+					v = kv.Value
+				}
+				n++
+				c.SawFunc(fi.Name())
+				c.Hold(rule, fi.Pkg.Types.Name()+"."+refName(fi.Obj)+":memory-buffer"+itoa(n), cl.Pos(), !derives(v), "the MemoryBuffer is built over storage taken from a sync.Pool ("+exprStr(v)+"): the storage goes back to the pool when the function returns and the next session's DATA overwrites it while this message is still in its body checks – the queue then stores and delivers the other message's bytes under this envelope")
+			}
+			return true
+		})
+	}
+	if n == 0 {
+		c.HoldConst(rule, "no-pooled-storage", token.NoPos, true, "")
+	}
+}
+
+// c04RecordedMeansHandedOver: the pipeline records, per target, the recipients it handed to that target
+// (delivery.recipients – what Body/Commit results are later reported for). A recipient is recorded only after the
+// target's AddRcpt has been called for it: a memo that skips the call ("this address was added already") turns an
+// earlier refusal into a silent acceptance – the recipient gets 250 and no target ever sees it.
+func c04RecordedMeansHandedOver(c *Check, rule string) {
+	c.Rule(rule, "pipeline AddRcpt: a recipient is recorded for a target (delivery.recipients) only on paths on which that target's AddRcpt has been called in the same iteration – no condition lets the record be made without the hand-over", 1)
+	r := c.need(rule, pipelineRel, "msgpipelineDelivery", "AddRcpt")
+	if r == nil {
+		return
+	}
+	info := r.Info
+	n := 0
+	for _, pt := range r.F.Points() {
+		as, ok := pt.Node().(*ast.AssignStmt)
+		if !ok || len(as.Lhs) != 1 || len(as.Rhs) != 1 {
+			continue
+		}
+		fv := fieldOf(info, as.Lhs[0])
+		if fv == nil || fv.Name() != "recipients" {
+			continue
+		}
+		call, ok := ast.Unparen(as.Rhs[0]).(*ast.CallExpr)
+		if !ok {
+			continue
+		}
+		if id, isID := call.Fun.(*ast.Ident); !isID || id.Name != "append" {
+			continue
+		}
+		n++
+		// the enclosing loop over the targets: its head is where an iteration starts
+		var loop *ast.RangeStmt
+		ast.Inspect(r.FI.Decl.Body, func(x ast.Node) bool {
+			if rs, ok := x.(*ast.RangeStmt); ok && within(rs.Body, as) {
+				loop = rs // innermost wins (Inspect goes outside-in)
+			}
+			return true
+		})
+		if loop == nil {
+			c.Fail(rule, "AddRcpt:record"+itoa(n), as.Pos(), "undecided: the record is not made inside a loop over targets")
+			continue
+		}
+		handed := r.Calls(func(info *types.Info, call *ast.CallExpr) bool {
+			if methodName(call) != "AddRcpt" {
+				return false
+			}
+			fn := callee(info, call)
+			return fn != nil && fn.Pkg() != nil && strings.HasSuffix(fn.Pkg().Path(), "/framework/module")
+		})
+		head := r.F.Find(func(nd ast.Node) bool { return false })
+		for _, q := range r.F.Points() {
+			if q.I == 0 && q.B.Kind == kindRangeBody && q.B.Stmt == ast.Stmt(loop) {
+				head = append(head, q)
+			}
+		}
+		if len(head) == 0 {
+			// empty first node: take the first point inside the body
+			for _, q := range r.F.Points() {
+				if q.Node() != nil && within(loop.Body, q.Node()) {
+					head = append(head, q)
+					break
+				}
+			}
+		}
+		path, f := r.F.Reach(Query{From: head, Inclusive: true, Target: isPt([]Pt{pt}), Avoid: isPt(handed)})
+		c.Hold(rule, "AddRcpt:record"+itoa(n), as.Pos(), !f, "the recipient can be recorded for the target without the target's AddRcpt having been called in this iteration: when the call is skipped (an 'already added' memo that also remembers refused addresses) the client gets 250 for a recipient no target has accepted: "+r.F.Describe(path))
+	}
+	if n == 0 {
+		c.Fail(rule, "AddRcpt:records", r.FI.Decl.Pos(), "undecided: no append to delivery.recipients found")
+	}
+}
+
+// c07FromDomainALabels: everything DMARC does with the author domain wants A-labels – the `_dmarc.` query, the public
+// suffix list, the comparison with the d= of a signature and the SPF domain. A From domain written with U-labels
+// (`ceo@münchen.de`) that is used as written finds no policy and aligns with nothing: the verdict is "none" and a
+// published p=reject is avoided by choice of spelling. The domain leaves ExtractFromDomain converted with
+// idna …ToASCII, and FetchRecord does not convert the names it queries back (ToUnicode / ForLookup).
+func c07FromDomainALabels(c *Check, rule string) {
+	c.Rule(rule, "internal/dmarc: the author domain leaves ExtractFromDomain converted to A-labels (an idna ToASCII step on every successful return), and the names FetchRecord queries are not converted back to U-labels: a From domain written with U-labels finds the policy published for it", 2)
+	p := c.P
+	if fi := p.Func("internal/dmarc", "", "ExtractFromDomain"); fi == nil {
+		c.Fail(rule, "dmarc.ExtractFromDomain", token.NoPos, "anchor unresolved")
+	} else {
+		c.SawFunc(fi.Name())
+		f := p.SSAFunc(fi.Obj)
+		n, msg := 0, ""
+		if f != nil {
+			for _, r := range returnsOf(f) {
+				if len(r.Results) != 2 || !isNilConst(r.Results[1]) {
+					continue
+				}
+				for _, ch := range stringChains(r.Results[0], 12) {
+					n++
+					has := false
+					for _, st := range ch.Steps {
+						if strings.Contains(st.Callee, "idna.") && strings.Contains(st.Callee, "ToASCII") {
+							has = true
+						}
+					}
+					if !has {
+						msg = "the author domain is returned as written " + describeChain(ch.Steps) + ": for `From: ceo@münchen.de` the policy is looked up at _dmarc.münchen.de. (no resolver answers that), nothing aligns with the A-label identifiers of DKIM and SPF – dmarc=none although _dmarc.xn--mnchen-3ya.de publishes p=reject"
+					}
+				}
+			}
+		}
+		c.Hold(rule, "ExtractFromDomain:a-labels", fi.Decl.Pos(), msg == "" && n > 0, msg)
+	}
+	if fi := p.Func("internal/dmarc", "", "FetchRecord"); fi == nil {
+		c.Fail(rule, "dmarc.FetchRecord", token.NoPos, "anchor unresolved")
+	} else {
+		c.SawFunc(fi.Name())
+		f := p.SSAFunc(fi.Obj)
+		n, msg := 0, ""
+		if f != nil {
+			for _, b := range f.Blocks {
+				for _, ins := range b.Instrs {
+					call, ok := ins.(*ssa.Call)
+					if !ok || !call.Call.IsInvoke() || call.Call.Method.Name() != "LookupTXT" || len(call.Call.Args) < 2 {
+						continue
+					}
+					n++
+					for _, part := range concatParts(call.Call.Args[1]) {
+						for _, ch := range stringChains(part, 12) {
+							for _, st := range ch.Steps {
+								if strings.Contains(st.Callee, "ToUnicode") || strings.HasSuffix(st.Callee, "/framework/dns.ForLookup") || strings.HasSuffix(st.Callee, "/framework/address.ForLookup") {
+									msg = "the queried name passes through " + st.Callee[strings.LastIndex(st.Callee, "/")+1:] + ", which produces U-labels: the policy of an internationalized author domain (xn--mnchen-3ya.de) is looked up under a name that does not exist in DNS – dmarc=none, p=reject not applied"
+								}
+							}
+						}
+					}
+				}
+			}
+		}
+		c.Hold(rule, "FetchRecord:names-stay-a-labels", fi.Decl.Pos(), msg == "" && n > 0, msg)
+	}
+	// … nor on the way from ExtractFromDomain to FetchRecord
+	if fi := p.Func("internal/dmarc", "Verifier", "FetchRecord"); fi == nil {
+		c.Fail(rule, "dmarc.Verifier.FetchRecord", token.NoPos, "anchor unresolved")
+	} else {
+		c.SawFunc(fi.Name())
+		msg, n := "", 0
+		var fns []*ssa.Function
+		if f := p.SSAFunc(fi.Obj); f != nil {
+			fns = append(fns, f)
+			fns = append(fns, f.AnonFuncs...)
+		}
+		for _, f := range fns {
+			for _, b := range f.Blocks {
+				for _, ins := range b.Instrs {
+					call, ok := ins.(*ssa.Call)
+					if !ok || call.Call.IsInvoke() || len(call.Call.Args) < 3 || !strings.HasSuffix(ssaCalleeName(&call.Call), "/internal/dmarc.FetchRecord") {
+						continue
+					}
+					n++
+					for _, ch := range stringChains(call.Call.Args[2], 12) {
+						for _, st := range ch.Steps {
+							if strings.Contains(st.Callee, "ToUnicode") || strings.HasSuffix(st.Callee, "/framework/dns.ForLookup") || strings.HasSuffix(st.Callee, "/framework/address.ForLookup") {
+								msg = "the author domain passes through " + st.Callee[strings.LastIndex(st.Callee, "/")+1:] + " before the policy lookup: an A-label domain (xn--mnchen-3ya.de) is looked up under its U-label spelling, which does not exist in DNS – dmarc=none, the published p=reject is not applied"
+							}
+						}
+					}
+				}
+			}
+		}
+		c.Hold(rule, "Verifier.FetchRecord:domain-stays-a-label", fi.Decl.Pos(), msg == "" && n > 0, msg)
+	}
+}
